@@ -1,7 +1,7 @@
 (** Prop_C10.v -- C10: any crash leaves a database the server can restart
     from and clean up. *)
 From MW Require Import Base Store Monad Usage Server Websocket Service Findings Inv Obs
-     StepFacts SweepFacts TimeInv Corollaries QuiesceFacts NpFactsA MbFactsA MbFactsB DupFacts ResumeFacts Inst_Params.
+     StepFacts SweepFacts TimeInv Corollaries QuiesceFacts NpFactsA MbFactsA MbFactsB DupFacts ResumeFacts ResumeMore Inst_Params.
 Local Open Scope list_scope.
 
 (** histories may contain any number of [ECrash k e] events: the process dies
@@ -105,3 +105,118 @@ Example C10_nonvacuous :
   List.length (mailboxes (chan_c s)) = 1%nat /\ mb_sides (chan_c s) = [] /\
   List.length (nameplates (chan_c s)) = 1%nat.
 Proof. vm_compute. repeat split; reflexivity. Qed.
+
+(** * dying again inside the start-up sweep, downtime before the restart, and the usage database of a
+    resumed command (quoted by type from ResumeMore.v).  [SubDb d d']: every mailbox row of [d'] is a row
+    of [d], and nameplates, side rows and messages survive exactly with their mailbox / nameplate. *)
+
+(** the process dies after the k-th commit of its START-UP sweep (any k): the files left are well-formed
+    and a sub-database of what the sweep started from *)
+Theorem C10_boot_crash_chain : ltac:(let t := type of boot_crash_chain in exact t).
+Proof. exact boot_crash_chain. Qed.
+Check C10_boot_crash_chain.
+Print Assumptions C10_boot_crash_chain.
+
+(** any number of deaths inside start-up sweeps, at any instants, then a start that completes: no internal
+    error, nothing pending, a well-formed sub-database *)
+Theorem C10_boot_chain_restarts : ltac:(let t := type of boot_chain_restarts in exact t).
+Proof. exact boot_chain_restarts. Qed.
+Check C10_boot_chain_restarts.
+Print Assumptions C10_boot_chain_restarts.
+
+(** a restart at ANY later instant t' (downtime): start-up completes, the timer is armed, time stamps are sane *)
+Theorem C10_boot_after_downtime : ltac:(let t := type of boot_after_downtime in exact t).
+Proof. exact boot_after_downtime. Qed.
+Check C10_boot_after_downtime.
+Print Assumptions C10_boot_after_downtime.
+
+(** the three composed: a crash of any event at any commit, any chain of deaths inside start-up sweeps, a start
+    after any downtime -- the server serves (exceptions only at the known-finding triggers) and empties the
+    store once nobody returns *)
+Theorem C10_crash_then_downtime : ltac:(let t := type of crash_then_downtime in exact t).
+Proof. exact crash_then_downtime. Qed.
+Check C10_crash_then_downtime.
+Print Assumptions C10_crash_then_downtime.
+
+(** the usage database after crash + re-sent claim: the uncrashed one plus the restart's status row and the
+    reconnecting client's version row *)
+Theorem C10_claim_resume_usage : ltac:(let t := type of claim_resume_usage in exact t).
+Proof. exact claim_resume_usage. Qed.
+Check C10_claim_resume_usage.
+Print Assumptions C10_claim_resume_usage.
+
+(** the same for open *)
+Theorem C10_open_resume_usage : ltac:(let t := type of open_resume_usage in exact t).
+Proof. exact open_resume_usage. Qed.
+Check C10_open_resume_usage.
+Print Assumptions C10_open_resume_usage.
+
+(** release, exactly: the same, plus ONE MORE copy of the nameplate's usage record iff the crash fell between
+    the usage commit and the deleting channel commit (k = 2) -- known finding KF5 *)
+Theorem C10_release_resume_usage : ltac:(let t := type of release_resume_usage in exact t).
+Proof. exact release_resume_usage. Qed.
+Check C10_release_resume_usage.
+Print Assumptions C10_release_resume_usage.
+
+(** close, exactly: k = 2 doubles the records of the retiring close; k >= 3 adds one transient-mailbox record
+    (the re-sent close re-creates and retires the mailbox: KF4's door) -- KF5 *)
+Theorem C10_close_resume_usage : ltac:(let t := type of close_resume_usage in exact t).
+Proof. exact close_resume_usage. Qed.
+Check C10_close_resume_usage.
+Print Assumptions C10_close_resume_usage.
+
+(** ... and no difference at all for every other crash point *)
+Theorem C10_release_resume_usage_once : ltac:(let t := type of release_resume_usage_once in exact t).
+Proof. exact release_resume_usage_once. Qed.
+Check C10_release_resume_usage_once.
+Print Assumptions C10_release_resume_usage_once.
+
+(** ... (close: k <= 1, or the mailbox survives) *)
+Theorem C10_close_resume_usage_once : ltac:(let t := type of close_resume_usage_once in exact t).
+Proof. exact close_resume_usage_once. Qed.
+Check C10_close_resume_usage_once.
+Print Assumptions C10_close_resume_usage_once.
+
+(** without a usage database nothing is recorded either way *)
+Theorem C10_release_resume_usage_off : ltac:(let t := type of release_resume_usage_off in exact t).
+Proof. exact release_resume_usage_off. Qed.
+Check C10_release_resume_usage_off.
+Print Assumptions C10_release_resume_usage_off.
+
+(** (close) *)
+Theorem C10_close_resume_usage_off : ltac:(let t := type of close_resume_usage_off in exact t).
+Proof. exact close_resume_usage_off. Qed.
+Check C10_close_resume_usage_off.
+Print Assumptions C10_close_resume_usage_off.
+
+(** KF5 is real in the model: the concrete state, crash point and doubled record (vm_compute) *)
+Theorem C10_release_usage_once_refuted : ltac:(let t := type of release_usage_once_refuted in exact t).
+Proof. exact release_usage_once_refuted. Qed.
+Check C10_release_usage_once_refuted.
+Print Assumptions C10_release_usage_once_refuted.
+
+(** (close) *)
+Theorem C10_close_usage_once_refuted : ltac:(let t := type of close_usage_once_refuted in exact t).
+Proof. exact close_usage_once_refuted. Qed.
+Check C10_close_usage_once_refuted.
+Print Assumptions C10_close_usage_once_refuted.
+
+(** non-vacuity: crash files, 200 ticks of downtime, two deaths inside the 4-commit start-up sweep, a third
+    start that completes *)
+Theorem C10_boot_chain_nonvacuous : ltac:(let t := type of boot_chain_nonvacuous in exact t).
+Proof. exact boot_chain_nonvacuous. Qed.
+Check C10_boot_chain_nonvacuous.
+Print Assumptions C10_boot_chain_nonvacuous.
+
+(** non-vacuity of the resume theorems' hypotheses *)
+Theorem C10_release_resume_nonvacuous : ltac:(let t := type of release_resume_nonvacuous in exact t).
+Proof. exact release_resume_nonvacuous. Qed.
+Check C10_release_resume_nonvacuous.
+Print Assumptions C10_release_resume_nonvacuous.
+
+(** (close) *)
+Theorem C10_close_resume_nonvacuous : ltac:(let t := type of close_resume_nonvacuous in exact t).
+Proof. exact close_resume_nonvacuous. Qed.
+Check C10_close_resume_nonvacuous.
+Print Assumptions C10_close_resume_nonvacuous.
+
